@@ -12,6 +12,7 @@ A site that is neither (new code iterating a set, a justification whose text no 
 Set iteration order is taken to be arbitrary (subsumes PYTHONHASHSEED, id()-based hashes, process identity).
 """
 import ast
+import re
 from dataclasses import dataclass
 from typing import Dict, List, Optional, Set
 
@@ -49,11 +50,26 @@ class SetFlow(ast.NodeVisitor):
             ann = ast.unparse(a.annotation) if a.annotation is not None else ""
             if ann.split("[")[0] in ("set", "Set", "FrozenSet", "AbstractSet", "frozenset"):
                 self.set_names.add(a.arg)
+        # names holding a collection OF sets (a list / ordered set whose elements are sets): their elements are sets
+        self.coll_of_sets: Set[str] = set()
+        coll_ann = re.compile(r"^(Iterable|List|Sequence|Collection|OrderedSet|Tuple|list|tuple)\[(Set|FrozenSet|AbstractSet|set|frozenset)\[")
+        for n in ast.walk(fn):
+            if isinstance(n, ast.AnnAssign) and isinstance(n.target, ast.Name) and coll_ann.match(ast.unparse(n.annotation).replace("typing.", "")):
+                self.coll_of_sets.add(n.target.id)
+            elif isinstance(n, (ast.Assign, ast.AnnAssign)) and isinstance(getattr(n, "value", None), (ast.ListComp, ast.GeneratorExp)) \
+                    and isinstance(n.value.elt, (ast.Set, ast.SetComp)):
+                for t in (n.targets if isinstance(n, ast.Assign) else [n.target]):
+                    if isinstance(t, ast.Name):
+                        self.coll_of_sets.add(t.id)
         # fixed point over assignments
         changed = True
         while changed:
             changed = False
             for n in ast.walk(fn):
+                if isinstance(n, (ast.For, ast.comprehension)) and isinstance(n.iter, ast.Name) and n.iter.id in self.coll_of_sets \
+                        and isinstance(n.target, ast.Name) and n.target.id not in self.set_names:
+                    self.set_names.add(n.target.id)
+                    changed = True
                 if isinstance(n, (ast.Assign, ast.AnnAssign)) and getattr(n, "value", None) is not None:
                     targets = n.targets if isinstance(n, ast.Assign) else [n.target]
                     kind = self.kind(n.value)
@@ -121,7 +137,8 @@ class SetFlow(ast.NodeVisitor):
                             self.site(n, a, f"call:{name}")       # recorded, discharged by rule
                             continue
                         if name == "sorted":
-                            self.site(n, a, "call:sorted:key")   # a key function may tie distinct elements: not canonical
+                            # a key function may tie distinct elements (ties keep the set's order): canonical only for an injective key
+                            self.site(n, a, "call:sorted:uniquekey" if self.key_is_injective(n) else "call:sorted:key")
                             continue
                         if k == "set" and name not in ("sorted", "join", "next", "list", "tuple"):
                             continue       # a set passed as a value (not iterated here)
@@ -129,6 +146,24 @@ class SetFlow(ast.NodeVisitor):
                     elif k and name in PASS_THROUGH:
                         self.site(n, a, self.consumer_of(n, f"call:{name}"))
         return self.sites
+
+    UNIQUE_ID_ATTRS = {"index"}      # ModelMeta.index: handed out by the registry's counter, one per model (trusted)
+
+    def key_is_injective(self, call: ast.Call) -> bool:
+        """sorted(xs, key=lambda x: E) where E is x.<unique id> or a tuple with such a component (whole, not sliced / indexed);
+        `reverse=` does not matter"""
+        kw = {k.arg: k.value for k in call.keywords}
+        if set(kw) - {"key", "reverse"} or "key" not in kw:
+            return False
+        lam = kw["key"]
+        if not (isinstance(lam, ast.Lambda) and len(lam.args.args) == 1 and not lam.args.vararg and not lam.args.kwarg):
+            return False
+        x = lam.args.args[0].arg
+
+        def unique(e):
+            return isinstance(e, ast.Attribute) and e.attr in self.UNIQUE_ID_ATTRS and isinstance(e.value, ast.Name) and e.value.id == x
+        body = lam.body
+        return unique(body) or (isinstance(body, ast.Tuple) and any(unique(e) for e in body.elts))
 
     def consumer_of(self, node, default):
         """walk up through pass-through wrappers to the real consumer"""
@@ -168,6 +203,8 @@ class SetFlow(ast.NodeVisitor):
             rule = f"rule:{c}-is-order-insensitive"
         elif c == "sorted":
             rule = "rule:sorted-without-key-is-canonical"
+        elif c == "sorted:uniquekey":
+            rule = "rule:sorted-by-a-key-with-a-unique-id-component-is-canonical"
         if rule:
             s.verdict, s.why = rule, "prelude lemma L-PERM / canonical sorting of distinct totally ordered elements"
         else:
